@@ -253,8 +253,8 @@ def witness_for(oid, repo, root, log):
                 shutil.copy(s, os.path.join(d, item))
         shutil.copy(os.path.join(root, 'replays', 'witness', w['file']), os.path.join(d, 'tests', w['file']))
         test = os.path.splitext(w['file'])[0]
-        env = dict(os.environ, CARGO_NET_OFFLINE='true', CARGO_TARGET_DIR=os.path.join(repo, 'target'))
-        cmd = ['timeout', '300', 'cargo', 'test', '--offline', '--test', test, w['test'], '--', '--exact', '--test-threads', '1']
+        env = dict(os.environ, CARGO_NET_OFFLINE='true', CARGO_TARGET_DIR=os.path.join(d, 'target'))
+        cmd = ['timeout', '600', 'cargo', 'test', '--offline', '--no-default-features', '--test', test, w['test'], '--', '--exact', '--test-threads', '1']
         pr = subprocess.run(cmd, cwd=d, env=env, capture_output=True, text=True)
         failed = pr.returncode != 0 and ('panicked' in pr.stdout or 'FAILED' in pr.stdout or pr.returncode == 124)
         return {'test': w['test'], 'file': w['file'], 'cmd': ' '.join(cmd), 'reproduced': failed,
